@@ -38,6 +38,7 @@ GroupOK(e) ==
             /\ e.res[j].cntv = CountNN(cs)
             \* LISTAGG(id) WITHIN GROUP (ORDER BY id): exactly the rows of the bucket (id = position of the row in the table)
             /\ e.res[j].ids = idx
+            /\ e.res[j].ids2 = idx        \* ... the same list ordered by an expression
             \* user-defined aggregate functions receive every value of the bucket, NULLs included
             /\ e.res[j].ucnt = Cardinality(mem) /\ e.res[j].unn = CountNN(cs)
             /\ e.res[j].hasmed = (NumCells(cs) # <<>>)
